@@ -519,7 +519,9 @@ void Complete(char pc, typename C::template Prom<I> p, Clock& ck) {
       break;
   }
   ck.c[I] = ++ck.now;
-  vrt::Event("r" + std::to_string(I));  // Set returned (no switch can separate it from Set's last operation)
+  // Set returned.  (With --yield-at after/both other fibers' operations can lie between Set's last operation and this
+  // marker; the trace mapping only uses it to delimit THIS fiber's operations inside the Set call.)
+  vrt::Event("r" + std::to_string(I));
 }
 
 template <typename C, typename OutV, typename... Cores>
